@@ -49,6 +49,9 @@ protected:
    virtual MessageRef UnflattenHeaderAndMessage(const ConstByteBufferRef & bufRef) const;
    virtual status_t GetBodySize(const uint8 * header, uint32 & retNumBytes) const;
 
+   /** Overridden to return false, since what we send depends on which templates we have sent previously */
+   MUSCLE_NODISCARD virtual bool AreFlattenedBuffersShareable() const {return false;}
+
    /** Should return true iff the given outgoing Message is something we should attempt
      * to send using our templatization mechanism.  Default implementation always returns true.
      * @param outgoingMsg the Message we are about to send
